@@ -8,6 +8,8 @@
    ([to_js]: duplicate keys, "__proto__", integer-like keys), and SerializeJSONProperty /
    SerializeJSONObject / SerializeJSONArray over a small universe of JS values ([ser], [stringify]). *)
 From Coq Require Import List NArith ZArith Bool.
+Require Verif.Base.F64.
+Require Verif.C12.Model.      (* the executable Number::toString specification (proved in coq/C12/Proofs.v) *)
 Import ListNotations.
 Local Open Scope N_scope.
 
@@ -501,7 +503,15 @@ Fixpoint to_js (v : json) : pval :=
 (* JSON.stringify over a universe of JS values *)
 
 (* numbers whose Number::toString is simple: quarter-integers z/4 of moderate size, -0, NaN, ±Infinity *)
-Inductive num := NQ (z : Z) | NNegZero | NNaN | NInf (neg : bool).
+Inductive num := NQ (z : Z) | NNegZero | NNaN | NInf (neg : bool)
+               | NBits (b : N).     (* ANY double, given by its binary64 bit pattern *)
+
+Definition f64_of_bits (b : N) : Verif.Base.F64.f64 := Verif.Base.F64.of_bits (Z.of_N b).
+
+(* Number::toString of an arbitrary double: property C12's specification (shortest round-trip digits and
+   the ECMAScript layout: exponent form from 1e21 and below 1e-6) *)
+Definition bits_tostring (b : N) : list N :=
+  map Z.to_N (Verif.C12.Model.to_string (f64_of_bits b)).
 
 Fixpoint dec_digits_aux (fuel : nat) (n : N) (acc : list N) : list N :=
   match fuel with
@@ -525,6 +535,7 @@ Definition num_tostring (n : num) : text :=
   | NNegZero => [48]
   | NNaN => [78; 97; 78]
   | NInf neg => (if neg then [45] else []) ++ [73; 110; 102; 105; 110; 105; 116; 121]
+  | NBits b => bits_tostring b
   end.
 
 Inductive jv :=
@@ -587,6 +598,8 @@ Definition ser_leaf (symbox_undef : bool) (pl : option (list (list N))) (rf : op
     | NQ z => Some (Some (print (nq_json z)))
     | NNegZero => Some (Some [48])
     | NNaN | NInf _ => Some (Some [110; 117; 108; 108])
+    | NBits b => if Verif.Base.F64.is_finite (f64_of_bits b) then Some (Some (bits_tostring b))
+                 else Some (Some [110; 117; 108; 108])
     end
   | VBigInt | VBoxBigInt => None
   | VUndef | VSym | VFun => Some None
@@ -691,6 +704,12 @@ Definition gap_of (space : jv) : text :=
     match n with
     | NQ z => let k := Z.min 10 (Z.quot z 4) in repeat 32 (Z.to_nat k)
     | NInf false => repeat 32 10
+    | NBits b =>
+      let x := f64_of_bits b in
+      match Verif.Base.F64.trunc_Z x with
+      | Some k => repeat 32 (Z.to_nat (Z.min 10 k))
+      | None => if Verif.Base.F64.is_inf x && negb (Verif.Base.F64.sign_bit x) then repeat 32 10 else repeat 32 0
+      end
     | _ => []
     end
   | VStr s | VBoxStr s => firstn 10 s
